@@ -132,7 +132,7 @@ func Gen(rng *rand.Rand, size int64, allowHuge bool) (h string, present bool, ki
 	case x < 50:
 		s, k := single()
 		return "bytes=" + s, true, k
-	case x < 72: // multiple
+	case x < 70: // multiple
 		k := 2 + rng.Intn(5)
 		var parts []string
 		var kinds []string
@@ -153,6 +153,26 @@ func Gen(rng *rand.Rand, size int64, allowHuge bool) (h string, present bool, ki
 			sb.WriteString(p)
 		}
 		return sb.String(), true, "multi"
+	case x < 72: // a great many small ranges (17..120), all of them satisfiable when the content is not empty
+		k := 17 + rng.Intn(104)
+		var sb strings.Builder
+		sb.WriteString("bytes=")
+		for i := 0; i < k; i++ {
+			if i > 0 {
+				sb.WriteString(sep())
+			}
+			a := in()
+			b := a + rng.Int63n(64)
+			switch {
+			case rng.Intn(40) == 0:
+				fmt.Fprintf(&sb, "%d-", a)
+			case b >= n && n > 0:
+				fmt.Fprintf(&sb, "%d-%d", a, n-1)
+			default:
+				fmt.Fprintf(&sb, "%d-%d", a, b)
+			}
+		}
+		return sb.String(), true, "many"
 	case x < 80: // whitespace / case variants of a valid header
 		s, _ := single()
 		switch rng.Intn(7) {
